@@ -73,6 +73,30 @@ func c14Cases(tier string, seed uint64) []fw.Case {
 			rec(nil)
 		}
 	}
+	// process level, two activations: a second token reaches the same catch event when the history says so
+	// (-1 = answer the task in front of it); events may arrive while no token waits
+	for _, kind := range []string{"parallel", "plain"} {
+		for d := 1; d <= 3; d++ {
+			var rec func(p []int, held bool)
+			rec = func(p []int, held bool) {
+				if len(p) > 0 {
+					c := c14Case{Level: "process2", Kind: kind, Defs: d, Hist: append([]int(nil), p...)}
+					c.Name = fmt.Sprintf("process2/%s/d%d/%v", kind, d, p)
+					cs = append(cs, fw.MkCase("process2", &c))
+				}
+				if len(p) == procLen+1 {
+					return
+				}
+				for e := -1; e <= d; e++ {
+					if e == -1 && !held {
+						continue
+					}
+					rec(append(p, e), held && e != -1)
+				}
+			}
+			rec(nil, true)
+		}
+	}
 	return fw.Number(cs)
 }
 
@@ -301,6 +325,100 @@ func c14Process(c *c14Case, env *fw.Env, v *fw.V) {
 	}
 }
 
+// c14Process2: start -> fork -> (catch | hold -> catch) -> after -> end. The first token waits at the
+// catch event from the start, the second arrives when the history answers `hold`. Events delivered
+// while a token waits count towards the catch event's definitions; a firing releases every waiting
+// token; events delivered while no token waits are dropped (they must not count for a later token).
+func c14Process2(c *c14Case, env *fw.Env, v *fw.V) {
+	g := gen.NewGraph("c14")
+	s := g.Add(gen.Start, "start", "")
+	f := g.Add(gen.And, "fork", "")
+	ce := g.Add(gen.Catch, "c", "")
+	ce.Par = c.Kind == "parallel"
+	for i := 0; i < c.Defs; i++ {
+		ce.Events = append(ce.Events, gen.EventDef{Type: "signal", Ref: fmt.Sprintf("s%d", i)})
+	}
+	hold := g.Add(gen.Task, "hold", "")
+	t := g.Add(gen.Task, "after", "")
+	e := g.Add(gen.End, "end", "")
+	g.Connect(s, f, nil)
+	g.Connect(f, ce, nil)
+	g.Connect(f, hold, nil)
+	g.Connect(hold, ce, nil)
+	g.Connect(ce, t, nil)
+	g.Connect(t, e, nil)
+	defs, _, err := step.Parse(g)
+	if err != nil {
+		v.Inconclusive("parse", "%v", err)
+		return
+	}
+	perturb.Off()
+	in, err := drive.New(env.Label, defs, drive.Opts{ExtraSubs: 1})
+	if err != nil {
+		v.Violate("new-process-error", "error", "%v", err)
+		return
+	}
+	defer in.Cancel()
+	if err := in.Start(); err != nil {
+		v.Violate("start-error", "error", "%v", err)
+		return
+	}
+	cls := fmt.Sprintf("process2-%s-defs=%d", c.Kind, c.Defs)
+	counts := make([]int, c.Defs)
+	fired, waiting, expect := 0, 1, 0
+	settle := func() bool {
+		q := in.Quiesce(step.Watchdog)
+		v.Add("qpoints", 1)
+		if !q.Quiescent {
+			v.Inconclusive("watchdog", "no quiescent point: %v", quiesce.Summary(q.Gs))
+			return false
+		}
+		if gs := quiesce.DriverIn(q.Gs, "Process).ConsumeEvent"); len(gs) > 0 {
+			v.Violate("consume-blocked", cls, "ConsumeEvent blocked during %v", c.Hist)
+			return false
+		}
+		return true
+	}
+	if !settle() {
+		return
+	}
+	for i, ev := range c.Hist {
+		if ev == -1 {
+			for _, r := range in.Pending() {
+				if r.Act == "hold" {
+					in.Answer(r, bpmn.DoWithResults(nil))
+				}
+			}
+			waiting++
+		} else {
+			in.Go("ConsumeEvent", func() error { _, err := in.Proc.ConsumeEvent(c14Ev(ev, c.Defs)); return err })
+			if waiting > 0 && ev < c.Defs {
+				counts[ev]++
+				least := counts[0]
+				for _, n := range counts {
+					least = min(least, n)
+				}
+				if c.Kind == "plain" || c.Defs == 1 || least > fired {
+					fired++
+					expect += waiting
+					waiting = 0
+					if c.Kind == "plain" || c.Defs == 1 {
+						fired = 0
+					}
+				}
+			}
+		}
+		if !settle() {
+			return
+		}
+		if got := in.Count("Task", "after"); got != expect {
+			v.Violate("process-fire-count", cls, "after history %v (-1 = second token sent to the catch event) the task behind the %s catch event (%d definitions) was requested %d times, expected %d", c.Hist[:i+1], c.Kind, c.Defs, got, expect)
+			v.Log = in.Tail(30)
+			return
+		}
+	}
+}
+
 func init() {
 	fw.Register(&fw.Prop{
 		ID:    "C14",
@@ -315,13 +433,16 @@ func init() {
 			if cc.Level == "satisfier" {
 				c14Satisfier(&cc, v)
 				v.Nontrivial = v.Stats["histories"] > 1
+			} else if cc.Level == "process2" {
+				c14Process2(&cc, env, v)
+				v.Nontrivial = true
 			} else {
 				c14Process(&cc, env, v)
 				v.Nontrivial = true
 			}
 			return v
 		},
-		Rule:       "satisfier level: CatchEventSatisfier (parallel-multiple and plain) and ThrowEventSatisfier driven directly with ALL event histories up to length 7 (quick) / 9 (thorough) over 1..4 signal definitions plus one non-matching event, each history on fresh satisfiers, counters checked at every prefix (fired <= least-matched count, fired == k when all matched k times, non-matching events change no later result - checked against a twin fed with the stripped history); process level: a (parallel-)multiple intermediate catch event with 1..3 definitions, all histories up to length 4/5, downstream request counted at quiescent points; a case = one shard of the enumeration (non-trivial when it contains > 1 history); distinct = descriptor hash; evidence 'measured.histories' is the number of histories executed",
+		Rule:       "satisfier level: CatchEventSatisfier (parallel-multiple and plain) and ThrowEventSatisfier driven directly with ALL event histories up to length 7 (quick) / 9 (thorough) over 1..4 signal definitions plus one non-matching event, each history on fresh satisfiers, counters checked at every prefix (fired <= least-matched count, fired == k when all matched k times, non-matching events change no later result - checked against a twin fed with the stripped history); process level: a (parallel-)multiple intermediate catch event with 1..3 definitions, all histories up to length 4/5, downstream request counted at quiescent points; the same with two activations (a second token is sent to the same catch event at a point the history chooses, events also arrive while no token waits: they must not count for the later token; a firing releases every waiting token), all histories up to length 5/6; a case = one shard of the enumeration (non-trivial when it contains > 1 history); distinct = descriptor hash; evidence 'measured.histories' is the number of histories executed",
 		Exhaustive: func(string) bool { return true },
 		Assumptions: []string{"model/start_event_consumer.go is covered only through the satisfier it delegates to"},
 		Batch:       4,
